@@ -171,7 +171,9 @@ package mod
 //@   requires c != nil && connInv(c.sc)
 //@   modifies c.sc.deadline, c.sc.writeTime, c.sc.ctx, c.sc.ctxCancel, c.sc.txFixedWriteTime
 //@   ensures arity: imp(len(values) != 2, result != nil && c.sc.deadline == old(c.sc.deadline) && c.sc.writeTime == old(c.sc.writeTime) && c.sc.ctx == old(c.sc.ctx))
-//@   ensures inv: imp(result == nil, connInv(c.sc) && !c.sc.txFixedWriteTime)
+//@   ensures inv: imp(result == nil, connInv(c.sc))
+//@   ensures explicit-write-time-is-the-connections-own: imp(result == nil && !valNoChange(values[1]), !c.sc.txFixedWriteTime)
+//@   ensures automatic-write-time-stays-automatic: imp(valNoChange(values[1]) || result != nil, c.sc.txFixedWriteTime == old(c.sc.txFixedWriteTime))
 //@   ensures rejected-consistent: imp(result != nil, connInv(c.sc))
 //@   ensures deadline-kept: imp(result == nil && valNoChange(values[0]), c.sc.deadline == old(c.sc.deadline))
 //@   ensures deadline-cleared: imp(result == nil && !valNoChange(values[0]) && (valIsNil(values[0]) || valText(values[0]) == ""), zeroT(c.sc.deadline))
@@ -353,3 +355,99 @@ package mod
 //@   modifies c.common.eof, c.common.currentKey, c.common.currentRow, c.common.gtMin, c.common.ltMax, gf(c.common.cursor.Cursor, "pos")
 //@   at call:s3db.(*Cursor).Next assert right-arguments: arg0 == c.common && arg1 == c.ctx
 //@   ensures stepping-error-is-returned: imp(result == nil, c.common.eof || (c.common.currentKey != nil && c.common.currentRow != nil))
+
+// xOpen: the cursor reads through the table it was opened on, with the
+// connection's current statement context, and knows the table's key column
+// (xColumn's no-change protocol depends on it).
+//@ func (*VirtualTable).Open
+//@   requires c != nil && c.common != nil && c.module != nil && c.module.sc != nil
+//@   modifies nothing
+//@   ensures cursor-of-this-table: imp(err == nil, typeis(result0, *Cursor) && result0.(*Cursor) != nil && fresh(result0.(*Cursor)) && result0.(*Cursor).common != nil && result0.(*Cursor).common.t == c.common && result0.(*Cursor).ctx == c.module.sc.ctx && result0.(*Cursor).keyCol == c.common.KeyCol)
+//@   ensures imp(err != nil, result0 == nil)
+
+// xEof / xClose / xRowid: plain delegations
+//@ func (*Cursor).Eof
+//@   requires c != nil && c.common != nil
+//@   modifies nothing
+//@   ensures result == c.common.eof
+//@ func (*Cursor).Close
+//@   requires c != nil && c.common != nil
+//@   modifies nothing
+//@   ensures result == nil
+//@ func (*Cursor).Rowid
+//@   requires c != nil && c.common != nil
+//@   modifies nothing
+//@   ensures err != nil
+
+// xConnect / xCreate (property C20): the table name and the options reach
+// s3db.New without SQLite's first two arguments (module and database name); a
+// definition that New accepts but SQLite refuses to declare is rejected and
+// leaves NO table registered (a later CREATE of that name must work).
+//@ func (*Module).Connect#declare
+//@   trusted
+//@   modifies nothing
+//@ func (*Module).Connect
+//@   requires c != nil && c.sc != nil && len(args) >= 3 && imp(s3db.inMemoryS3 != nil, s3db.inMemoryS3.Client != nil)
+//@   modifies contents(s3db.tables), puts, deletes, lists, lastPutPrefix, lastPutName, lastPutOK, s3db.inMemoryS3, s3db.inMemoryBucket
+//@   at call:s3db.New assert statement-context: arg0 == c.sc.ctx && len(arg1) == len(args) - 2
+//@   at call:s3db.New assert table-name-and-options: forall j int :: imp(0 <= j && j < len(arg1), arg1[j] == args[j + 2])
+//@   ensures connected: imp(err == nil, typeis(result0, *VirtualTable) && result0.(*VirtualTable) != nil && result0.(*VirtualTable).module == c && result0.(*VirtualTable).common != nil && s3db.tables[old(args[2])] == result0.(*VirtualTable).common && has(s3db.tables, old(args[2])))
+//@   ensures rejected-leaves-no-table: forall k string :: imp(err != nil, has(s3db.tables, k) == old(has(s3db.tables, k)) && s3db.tables[k] == old(s3db.tables[k]))
+//@   ensures imp(err != nil, result0 == nil)
+//@ func (*Module).Create#declare
+//@   trusted
+//@   modifies nothing
+//@ func (*Module).Create
+//@   requires c != nil && c.sc != nil && len(args) >= 3 && imp(s3db.inMemoryS3 != nil, s3db.inMemoryS3.Client != nil)
+//@   modifies contents(s3db.tables), puts, deletes, lists, lastPutPrefix, lastPutName, lastPutOK, s3db.inMemoryS3, s3db.inMemoryBucket
+//@   at call:mod.(*Module).Connect assert same-arguments: arg0 == c && arg1 == conn && arg2 == args
+//@   ensures connected: imp(err == nil, typeis(result0, *VirtualTable) && result0.(*VirtualTable) != nil && result0.(*VirtualTable).module == c && result0.(*VirtualTable).common != nil && s3db.tables[old(args[2])] == result0.(*VirtualTable).common && has(s3db.tables, old(args[2])))
+//@   ensures rejected-leaves-no-table: forall k string :: imp(err != nil, has(s3db.tables, k) == old(has(s3db.tables, k)) && s3db.tables[k] == old(s3db.tables[k]))
+
+// xDisconnect / xDestroy (DROP TABLE, or the connection closes): the table
+// leaves the registry; the CONNECTION's attributes and request context are
+// shared by its other tables and stay consistent (C15: a deadline far in the
+// future must not make the next statement on another table fail).
+//@ func (*VirtualTable).Disconnect
+//@   requires c != nil && c.module != nil && connInv(c.module.sc) && c.common != nil && c.common.Tree != nil && c.common.Tree.Root != nil && has(s3db.tables, c.common.Name)
+//@   modifies c.common.Tree, contents(s3db.tables), c.module.sc.ctx, c.module.sc.ctxCancel
+//@   ensures connection-stays-usable: connInv(c.module.sc) && c.module.sc.deadline == old(c.module.sc.deadline) && c.module.sc.writeTime == old(c.module.sc.writeTime)
+//@   ensures unregistered: imp(result == nil, !has(s3db.tables, c.common.Name))
+//@ func (*VirtualTable).Destroy
+//@   requires c != nil && c.module != nil && connInv(c.module.sc) && c.common != nil && c.common.Tree != nil && c.common.Tree.Root != nil && has(s3db.tables, c.common.Name)
+//@   modifies c.common.Tree, contents(s3db.tables), c.module.sc.ctx, c.module.sc.ctxCancel
+//@   ensures connection-stays-usable: connInv(c.module.sc) && c.module.sc.deadline == old(c.module.sc.deadline) && c.module.sc.writeTime == old(c.module.sc.writeTime)
+//@   ensures unregistered: imp(result == nil, !has(s3db.tables, c.common.Name))
+
+// s3db_changes xConnect / xCreate (properties C12, C14): never panics on any
+// argument list (an option without '=' is an error), 'from' goes to the from
+// side and 'to' to the to side, duplicated options are rejected.
+//@ func (*ChangesModule).Connect#declare
+//@   trusted
+//@   modifies nothing
+//@ func parseVersions
+//@   requires res != nil
+//@   modifies *res
+//@   ensures empty-means-not-given: imp(s == "", result == nil && *res == old(*res))
+//@ func (*ChangesModule).Connect
+//@   requires c != nil && len(args) >= 3
+//@   modifies nothing
+//@   ensures imp(err != nil, result0 == nil)
+//@   ensures connected: imp(err == nil, typeis(result0, *ChangesTable) && result0.(*ChangesTable) != nil && fresh(result0.(*ChangesTable)) && result0.(*ChangesTable).module == c && result0.(*ChangesTable).table != nil)
+//@   ensures duplicate-rejected: forall j int, k int :: imp(err == nil && 0 <= j && j < k && k < len(args) - 3, splitKey(old(args[3:][j])) != splitKey(old(args[3:][k])))
+//@   at call:mod.parseVersions assert from-to-the-from-side: arg0 == fromVer && arg1 == &res.fromVer
+//@   at call:mod.parseVersions#2 assert to-to-the-to-side: arg0 == toVer && arg1 == &res.toVer
+//@   loop 1 invariant -1 <= rangeindex && rangeindex < len(args_cur) && res != nil && fresh(res) && res.module == c && fresh(seen)
+//@   loop 1 invariant len(args_cur) == len(args) - 3 && args_cur.arr == args.arr && args_cur.off == args.off + 3
+//@   loop 1 invariant forall j int :: imp(0 <= j && j <= rangeindex, has(seen, splitKey(args_cur[j])))
+//@   loop 1 invariant forall j int, k int :: imp(0 <= j && j < k && k <= rangeindex, splitKey(args_cur[j]) != splitKey(args_cur[k]))
+//@   loop 1 invariant from-is-from: forall j int :: imp(0 <= j && j <= rangeindex && splitKey(args_cur[j]) == "from", fromVer == unquoted(splitVal(args_cur[j])))
+//@   loop 1 invariant to-is-to: forall j int :: imp(0 <= j && j <= rangeindex && splitKey(args_cur[j]) == "to", toVer == unquoted(splitVal(args_cur[j])))
+//@   loop 1 invariant table-is-table: forall j int :: imp(0 <= j && j <= rangeindex && splitKey(args_cur[j]) == "table", tableName == unquoted(splitVal(args_cur[j])))
+//@ func (*ChangesModule).Create#declare
+//@   trusted
+//@   modifies nothing
+//@ func (*ChangesModule).Create
+//@   requires c != nil && len(args) >= 3
+//@   modifies nothing
+//@   at call:mod.(*ChangesModule).Connect assert same-arguments: arg0 == c && arg2 == args
